@@ -22,7 +22,7 @@ SPECIAL_EPOCHS = [
 ]
 BASE_HOST = {"epoch_ns": 1_700_000_000 * 10**9, "tick_ns": 1_000_000, "jumps": [], "TZ": "UTC", "LANG": "C.UTF-8", "LC_ALL": None,
              "LANGUAGE": None, "LOG_LEVEL": None, "profiler": False, "hashseed": 0, "aslr": False, "random_seed": 0,
-             "user": None, "hostname": None, "columns": None, "umask": None, "sched_seed": 0, "tty": False, "extra_env": None, "helper_programs": None}
+             "user": None, "hostname": None, "columns": None, "umask": None, "sched_seed": 0, "tty": False, "extra_env": None, "helper_programs": None, "desktop": False}
 
 
 def case_seed(master, prop, index):
@@ -71,6 +71,7 @@ def gen_host(rng, swarm=None):
             h["columns"] = rng.choice([None, "40", "80", "213"])
             h["umask"] = rng.choice([None, 0o022, 0o002, 0o077, 0o027])
         h["tty"] = rng.random() < 0.2
+        h["desktop"] = rng.random() < 0.25
     if swarm.get("hash", True):
         h["hashseed"] = rng.choice([0, 1, rng.randint(2, 2**32 - 1), rng.randint(2, 2**32 - 1)])
         h["aslr"] = rng.random() < 0.3
